@@ -116,6 +116,11 @@ func judge(pc podCase, o *outcome) []finding {
 		if !o.Idempotent {
 			add(fmt.Sprintf("mutate-not-idempotent named=%s", pc.Named), "Mutate(Mutate(p)) != Mutate(p) (second error: %q)", o.Mut2Err)
 		}
+		// the verdict on an object does not depend on HOW it arrives: an update that only adds the
+		// GPU-sharing annotations to an accepted pod is validated like the creation of that pod
+		if o.ValUpdRan && (o.ValUpd == "") != (o.ValMut == "") {
+			add("update-validation-differs-from-create "+culprit(true), "ValidateCreate(p)=%q but ValidateUpdate(p without GPU annotations -> p)=%q", o.ValMut, o.ValUpd)
+		}
 		if (o.ValOrig == "") != (o.ValMut == "") {
 			add(fmt.Sprintf("mutation-changes-validity named=%s", pc.Named), "Validate(p)=%q but Validate(Mutate(p))=%q", o.ValOrig, o.ValMut)
 		}
